@@ -108,11 +108,20 @@ theorem lidsWith_mem (t : Nat) (ds : List Doc) (base l : Nat) (h : l ∈ lidsWit
     · obtain ⟨k, d, h1, h2, h3⟩ := ih _ h
       exact ⟨k + 1, d, by simpa using h1, by omega, h3⟩
 
-theorem queueCalls_mem (toks : List Nat) (docs : List Doc) (base : Nat) (t : Option Nat) (ls : List Nat)
-    (h : (t, ls) ∈ queueCalls toks docs base) (l : Nat) (hl : l ∈ ls) :
+theorem queueCalls_mem (allLast : Bool) (toks : List Nat) (docs : List Doc) (base : Nat) (t : Option Nat) (ls : List Nat)
+    (h : (t, ls) ∈ queueCalls allLast toks docs base) (l : Nat) (hl : l ∈ ls) :
     ∃ k d, docs[k]? = some d ∧ l = base + k ∧ ∀ t', t = some t' → t' ∈ d.toks := by
-  simp only [queueCalls, List.mem_cons, List.mem_map] at h
-  rcases h with e | ⟨t', _, e⟩
+  have h' : (t, ls) = (none, List.range' base docs.length) ∨
+      ∃ t', t' ∈ toks ∧ (some t', lidsWith t' docs base) = (t, ls) := by
+    have hrev : ∀ x, x ∈ toks.reverse ↔ x ∈ toks := fun x => List.mem_reverse
+    cases allLast <;> simp only [queueCalls, Bool.false_eq_true, if_false, if_true, List.mem_cons, List.mem_append,
+      List.mem_map, hrev] at h
+    · exact h
+    · rcases h with h | h | h
+      · exact Or.inr h
+      · exact Or.inl h
+      · cases h
+  rcases h' with e | ⟨t', _, e⟩
   · cases e
     rw [List.mem_range'_1] at hl
     have hk : l - base < docs.length := by omega
